@@ -8,12 +8,14 @@ import ecc_file_x as fx
 import ecc_scen as es
 import ecc_util as eu
 
-LEAN_MODULES = ["Pff.Props.C13", "Pff.Props.C14", "Pff.Props.RunB"]
+LEAN_MODULES = ["Pff.Props.C13", "Pff.Props.C14", "Pff.Props.RunB", "Pff.Props.RunE"]
 PROP_MODULE = "Pff.Props.C13"
 THEOREMS = ["Pff.Ecc.C13_cut_block_safe", "Pff.Ecc.C13_assemble_prefix_whole", "Pff.Ecc.C13_assemble_prefix_header", "Pff.Ecc.C13_loop_prefix", "Pff.Ecc.C13_length",
             "Pff.Ecc.C04_length_header", "Pff.Ecc.C04_length_whole",
             "Pff.Run.C13_run_cut_prefix",
-            "Pff.Run.C13_run_output_length"]
+            "Pff.Run.C13_run_output_length",
+            "Pff.Run.C13_fields_no_fourth_delim",
+            "Pff.Run.C13_run_no_track_no_write"]
 MODELLED = [("pyFileFixity/header_ecc.py", "main"), ("pyFileFixity/structural_adaptive_ecc.py", "main"),
             ("pyFileFixity/lib/aux_funcs.py", "get_next_entry")]
 MODELLED = sorted(set(MODELLED + fx.WHOLE_RUN_MODELLED))
